@@ -19,6 +19,7 @@ type Edit struct {
 	GraphEdit  bool // edits the include graph: applied once per program, target = which file starts the cycle
 	NoR        bool // run without -r although the backend has to find it (the file is a used include)
 	FixedOnly  bool // only on the fixed three-file program (relies on its include being used)
+	Valid      bool // a control: the edited program is still valid and must be accepted
 }
 
 type Case struct {
@@ -184,6 +185,46 @@ func catalogue() []Edit {
 		s.Funcs = append(s.Funcs, &c)
 		return true
 	})
+	// ---- the throws list of a function with a return value shares <func>_result with field 0 `success` (ef66a8a)
+	for _, v := range []struct {
+		name          string
+		void, inArgs  bool
+		id            int
+		field         string
+		second, valid bool
+	}{{"name_success/nonvoid", false, false, 1, "success", false, false}, {"id_zero/nonvoid", false, false, 0, "zz_e", false, false},
+		{"name_success/nonvoid_second_entry", false, false, 2, "success", true, false}, {"id_zero/nonvoid_second_entry", false, false, 0, "zz_e", true, false},
+		{"name_success/void", true, false, 1, "success", false, true}, {"id_zero/void", true, false, 0, "zz_e", false, true},
+		{"name_success/argument", false, true, 1, "success", false, true}, {"id_zero_name_success/argument", false, true, 0, "success", false, true}} {
+		v := v
+		rule := "throws_reuses_success"
+		if v.valid {
+			rule = "control_success_elsewhere"
+		}
+		e := add(rule, v.name, func(p *GProg, fi int) bool {
+			f := p.Files[fi]
+			x := firstOf(f, "exception")
+			if x == nil {
+				return false
+			}
+			fn := &GFunc{Name: "zz"}
+			if !v.void {
+				fn.Ret = base("i32")
+			}
+			if v.inArgs {
+				fn.Args = []*GField{{ID: v.id, Name: v.field, T: base("i32")}}
+				fn.Throws = []*GField{{ID: 1, Name: "zz_e", T: ref(x.Name)}}
+			} else {
+				if v.second {
+					fn.Throws = append(fn.Throws, &GField{ID: 1, Name: "zz_first", T: ref(x.Name)})
+				}
+				fn.Throws = append(fn.Throws, &GField{ID: v.id, Name: v.field, T: ref(x.Name)})
+			}
+			f.Services = append(f.Services, &GService{Name: "ZZSvc", Funcs: []*GFunc{fn}})
+			return true
+		})
+		e.Valid = v.valid
+	}
 	// ---- enums
 	add("dup_enum_value_name", "append", func(p *GProg, fi int) bool {
 		e := p.Files[fi].Enums[0]
@@ -781,7 +822,7 @@ func buildCases(baseName string, mk func() *GProg, r *vl.Rng, exhaustive bool, p
 		if !e.Apply(p, fi) {
 			return nil
 		}
-		c := &Case{Base: baseName, Rule: e.Rule, Variant: e.Variant, Pos: pos, Prog: p, BaseProg: b, SyntaxBad: e.SyntaxBad, BackendBad: e.BackendBad}
+		c := &Case{Base: baseName, Rule: e.Rule, Variant: e.Variant, Pos: pos, Prog: p, BaseProg: b, SyntaxBad: e.SyntaxBad, BackendBad: e.BackendBad, Valid: e.Valid}
 		// the backend only types the constants of files it builds a scope for
 		c.Recursive = e.BackendBad && pos != "main" || (!e.BackendBad && !exhaustive && r.Chance(30))
 		if e.NoR {
@@ -870,6 +911,20 @@ func aimedCases() []*Case {
 		{"second_entry", `service S { i32 f(1: i32 a) throws (1: E e1, 2: E e2 = {"m": 7}) }`},
 		{"string_for_int_argument", `service S { void f(1: i32 a = "s") }`}, {"unknown_field_in_argument", `struct A { 1: i32 x }` + "\n" + `service S { void f(1: A a = {"nosuch": 1}) }`}} {
 		out = append(out, mk("throws_or_argument_default/"+v.n, false, true, fl{"main.thrift", append([]string{ex}, strings.Split(v.l, "\n")...)}))
+	}
+	for _, v := range []struct {
+		n, l  string
+		valid bool
+	}{{"nonvoid_name_success", "service S { i32 g() throws (1: E success) }", false}, {"nonvoid_id_zero", "service S { i32 h() throws (0: E e) }", false},
+		{"nonvoid_second_entry", "service S { string g(1: i32 a) throws (1: E e, 2: E success) }", false},
+		{"void_name_success", "service S { void g() throws (1: E success) }", true}, {"void_id_zero", "service S { void h() throws (0: E e) }", true},
+		{"argument_name_success", "service S { i32 g(1: i32 success) }", true}, {"argument_id_zero", "service S { i32 g(0: i32 success) throws (1: E e) }", true}} {
+		c := mk("throws_reuses_success/"+v.n, false, false, fl{"main.thrift", []string{ex, v.l}})
+		c.Valid = v.valid
+		if v.valid {
+			c.Rule = "aimed_control_success_elsewhere"
+		}
+		out = append(out, c)
 	}
 	for _, r := range []bool{false, true} {
 		n := "throws_or_argument_default/base_service_in_included_file"
